@@ -189,8 +189,9 @@ SPEC = Spec(
         "Go's append growth policy is an input (capacity observed after the call)",
         "translator translators/cmd/pdatacensus (go/ast): classifies exported value-receiver methods of pdata wrapper types by a syntactic "
         "rule (writes through an expression containing `orig` / mutator name pattern / first statement is AssertMutable)",
-        "nested message fields (opaque in the message model), nested Value.MoveTo/Map.MoveTo, element MoveTo/Sort of record slices: NOT modelled in Lean; checked by Go reference-model oracles only (tree, metric, witness harnesses); ptrace/pprofile share the templates "
-        "and are not exercised separately",
+        "nested message fields (opaque in the message model), nested Value.MoveTo/Map.MoveTo, element MoveTo/Sort of record slices: NOT modelled in Lean; checked by Go reference-model oracles only (tree, metric, witness harnesses); ptrace/pmetric/pprofile share the templates "
+        "and are exercised separately: ptrslice-ptrace/-pmetric/-pprofile (Lean differential on one slice type each) and, by reflection, "
+        "allslices / allslices-pprofile (every generated element slice) and allmsgs / allmsgs-pprofile (every generated message struct, Go oracles)",
         "the driver re-tabulates the heap function after every step (extensionally equal on allocated ids)",
     ],
     assumptions=[
